@@ -36,18 +36,18 @@ def generate(api):
     U = api.P.Untranslatable
 
     # ---- default style set ----------------------------------------------------------
+    # strict: __init__ is exactly `styles = [...]` and `super(DefaultStyleSet, self).__init__(styles)`
     tree, rel = api.parse("formatter/default_style_set.py")
-    init = api.P.find_function(tree, "DefaultStyleSet", "__init__", rel)
-    lists = [st.value for st in init.body
-             if isinstance(st, ast.Assign) and len(st.targets) == 1 and isinstance(st.targets[0], ast.Name)
-             and st.targets[0].id == "styles" and isinstance(st.value, ast.List)]
-    if len(lists) != 1:
-        raise U("%s: expected exactly one `styles = [...]` in DefaultStyleSet.__init__" % rel)
-    passed = [st for st in ast.walk(init) if isinstance(st, ast.Call) and isinstance(st.func, ast.Attribute)
-              and st.func.attr == "__init__" and len(st.args) == 1 and isinstance(st.args[0], ast.Name)
-              and st.args[0].id == "styles"]
-    if len(passed) != 1:
-        raise U("%s: `styles` is not handed to StyleSet.__init__ unchanged" % rel)
+    init = api.P.find_function(tree, "DefaultStyleSet", "__init__", rel, decorators=())
+    bs = api.P.Template("""
+        V_styles = HOLE_list
+        super(DefaultStyleSet, self).__init__(V_styles)
+    """).match(init.body, rel, "DefaultStyleSet.__init__")
+    if [a.arg for a in init.args.args] != ["self"] or not isinstance(bs["list"], ast.List):
+        raise U("%s: expected exactly one `styles = [...]` in DefaultStyleSet.__init__(self)" % rel)
+    api.P.check_bases(tree, "DefaultStyleSet", ["StyleSet"], rel)
+    api.P.imported_as(tree, "Style", ("clikit.api.formatter", "clikit.api.formatter.style"), rel)
+    lists = [bs["list"]]
     styles = []
     for e in lists[0].elts:
         chain = []
@@ -85,37 +85,40 @@ def generate(api):
 
     # ---- converter ------------------------------------------------------------------
     tree, rel2 = api.parse("adapter/style_converter.py")
-    conv = api.P.find_function(tree, "StyleConverter", "convert", rel2)
+    conv = api.P.find_function(tree, "StyleConverter", "convert", rel2, decorators=("classmethod",))
+    if [a.arg for a in conv.args.args] != ["cls", "style"] or len(conv.decorator_list) != 1:
+        raise U("%s:%d: @classmethod convert(cls, style) expected" % (rel2, conv.lineno))
+    pimp = [(st, al) for st in tree.body if isinstance(st, ast.ImportFrom) for al in st.names if (al.asname or al.name) == "PastelStyle"]
+    if not (len(pimp) == 1 and pimp[0][0].module in ("pastel.style", "pastel") and pimp[0][1].name == "Style"
+            and not api.P._other_bindings([st for st in tree.body if st is not pimp[0][0]], "PastelStyle", None)):
+        raise U("%s: PastelStyle is not pastel's Style" % rel2)
     body = [st for st in conv.body if not (isinstance(st, ast.Expr) and isinstance(st.value, ast.Constant))]
     if len(body) < 3:
         raise U("%s: convert() has an unexpected shape" % rel2)
     first, ifs, last = body[0], body[1:-1], body[-1]
-    if not (isinstance(first, ast.Assign) and isinstance(first.targets[0], ast.Name) and first.targets[0].id == "options"
-            and isinstance(first.value, ast.List) and not first.value.elts):
+    if not (isinstance(first, ast.Assign) and len(first.targets) == 1 and isinstance(first.targets[0], ast.Name)
+            and first.targets[0].id == "options" and isinstance(first.value, ast.List) and not first.value.elts):
         raise U("%s: convert() does not start with `options = []`" % rel2)
     pairs = []
     for st in ifs:
         ok = (isinstance(st, ast.If) and not st.orelse and len(st.body) == 1
               and isinstance(st.test, ast.Call) and isinstance(st.test.func, ast.Attribute)
               and isinstance(st.test.func.value, ast.Name) and st.test.func.value.id == "style"
-              and st.test.func.attr.startswith("is_") and not st.test.args)
+              and st.test.func.attr.startswith("is_") and not st.test.args and not st.test.keywords)
         if ok:
             call = st.body[0].value if isinstance(st.body[0], ast.Expr) else None
             ok = (isinstance(call, ast.Call) and isinstance(call.func, ast.Attribute) and call.func.attr == "append"
                   and isinstance(call.func.value, ast.Name) and call.func.value.id == "options"
-                  and len(call.args) == 1 and isinstance(call.args[0], ast.Constant) and isinstance(call.args[0].value, str))
+                  and len(call.args) == 1 and not call.keywords
+                  and isinstance(call.args[0], ast.Constant) and isinstance(call.args[0].value, str))
         if not ok:
             raise U("%s: statement at line %d is not `if style.is_X(): options.append(\"Y\")`" % (rel2, st.lineno))
         attr = st.test.func.attr[3:]
         if attr not in ATTRS:
             raise U("%s: unknown style attribute is_%s" % (rel2, attr))
         pairs.append((attr, call.args[0].value))
-    r = last.value if isinstance(last, ast.Return) else None
-    ok = (isinstance(r, ast.Call) and isinstance(r.func, ast.Name) and r.func.id == "PastelStyle" and len(r.args) == 3
-          and not r.keywords
-          and isinstance(r.args[0], ast.Attribute) and r.args[0].attr == "foreground_color"
-          and isinstance(r.args[1], ast.Attribute) and r.args[1].attr == "background_color"
-          and isinstance(r.args[2], ast.Name) and r.args[2].id == "options")
+    ok = (isinstance(last, ast.Return) and last.value is not None
+          and ast.unparse(last.value) == "PastelStyle(style.foreground_color, style.background_color, options)")
     if not ok:
         raise U("%s: convert() does not end with `return PastelStyle(style.foreground_color, style.background_color, options)`" % rel2)
 
